@@ -3,8 +3,7 @@
 From C15 Require Import Model Spec TableCheck WordProofs.
 From GenC15 Require Import Tables.
 
-(* every Roman, cardinal, teen, ten and ordinal word of the source is the expected one (the scale word of
-   10^18 excepted, see TableCheck.tables_agree) *)
+(* every Roman, cardinal, scale, teen, ten and ordinal word of the source is the expected one *)
 Theorem tables_agree_now : tables_agree gen_tables = true.
 Proof. vm_compute. reflexivity. Qed.
 Print Assumptions tables_agree_now.
